@@ -30,14 +30,14 @@ type AttrRule struct {
 
 // Table is the abstract policy.
 type Table struct {
-	Elements      map[string]bool            // explicitly named elements
-	ElemAttrs     map[string][]AttrRule      // element -> rules
+	Elements      map[string]bool       // explicitly named elements
+	ElemAttrs     map[string][]AttrRule // element -> rules
 	GlobalAttrs   []AttrRule
-	ElemPatterns  []string                   // element regexps (AllowElementsMatching / OnElementsMatching)
-	Schemes       map[string]string          // scheme -> "" | "custom"
+	ElemPatterns  []string          // element regexps (AllowElementsMatching / OnElementsMatching)
+	Schemes       map[string]string // scheme -> "" | "custom"
 	SchemeRegexps []string
-	Flags         map[string]bool            // option name -> value (last setting)
-	Called        map[string]int             // builder method -> number of calls
+	Flags         map[string]bool // option name -> value (last setting)
+	Called        map[string]int  // builder method -> number of calls
 	Skip          map[string]bool
 	Bare          map[string]bool
 	BarePatterns  []string
@@ -63,9 +63,9 @@ type styleBuilder struct{ t *Table }
 
 // Evaluator interprets functions.
 type Evaluator struct {
-	P      *load.Program
-	pvars  map[string]*pats.Var // package-level regexps by "pkgpath.Name"
-	depth  int
+	P     *load.Program
+	pvars map[string]*pats.Var // package-level regexps by "pkgpath.Name"
+	depth int
 }
 
 func New(P *load.Program) *Evaluator {
